@@ -14,6 +14,8 @@ use crate::{exec_line, rng::Rng, Out, Session};
 use automerge::{transaction::Transactable, AutoCommit, ChangeHash, ObjType, ReadDoc, TextEncoding};
 use std::collections::BTreeMap;
 
+static SNAPS: std::sync::Mutex<BTreeMap<String, String>> = std::sync::Mutex::new(BTreeMap::new());
+
 fn dump_doc(d: &AutoCommit) -> String {
     // `document()` closes the open (empty) transaction: work on a copy
     let mut c = d.clone();
@@ -33,9 +35,10 @@ pub fn exec(s: &mut CrdtSession, toks: &[&str], enc: TextEncoding) -> Vec<String
     match toks[0] {
         "crdt.st.dump" => {
             let d = s.replicas.get(toks[1]).expect("replica");
-            if d.pending_ops() > 0 { return vec!["pending".into()]; }
             let text = dump_doc(d);
-            let mut res = vec![format!("{} idx=ok", text)];
+            // inside an open transaction the model also reports local = remote and undo = identity
+            let tail = if d.pending_ops() > 0 { " lr=ok rb=ok" } else { "" };
+            let mut res = vec![format!("{} idx=ok{}", text, tail)];
             // direct oracle: the index columns rebuilt from scratch by load() equal the maintained ones
             let bytes = d.clone().save_with_options(automerge::SaveOptions { deflate: false, retain_orphans: false });
             match AutoCommit::load_with_options(&bytes, automerge::LoadOptions::new().text_encoding(enc)) {
@@ -54,8 +57,28 @@ pub fn exec(s: &mut CrdtSession, toks: &[&str], enc: TextEncoding) -> Vec<String
         }
         "crdt.st.state" => {
             let d = s.replicas.get(toks[1]).expect("replica");
-            if d.pending_ops() > 0 { return vec!["pending".into()]; }
             vec![show_doc(d, None, enc)]
+        }
+        // C28 direct oracle: the op store (rows, successor lists, index columns) after a rollback is the
+        // one from before the transaction
+        "crdt.st.snap" => {
+            let d = s.replicas.get(toks[1]).expect("replica");
+            SNAPS.lock().unwrap().insert(toks[1].to_string(), dump_doc(d));
+            vec!["ok".into()]
+        }
+        "crdt.st.rbcheck" => {
+            let d = s.replicas.get(toks[1]).expect("replica");
+            let now = dump_doc(d);
+            let mut res = vec!["ok".to_string()];
+            if let Some(before) = SNAPS.lock().unwrap().get(toks[1]) {
+                if *before != now {
+                    let (a, b): (Vec<&str>, Vec<&str>) = (before.split(';').collect(), now.split(';').collect());
+                    let at = a.iter().zip(b.iter()).position(|(x, y)| x != y).unwrap_or(a.len().min(b.len()));
+                    res.push(format!("! C28 sig=store-differs-after-rollback the op store after rollback differs from the one before the transaction at row {}: {} vs {}",
+                        at, a.get(at).unwrap_or(&"<none>"), b.get(at).unwrap_or(&"<none>")));
+                }
+            }
+            res
         }
         // the model side evaluates the hypotheses of the refinement theorems on the replica's op list
         "crdt.st.adm" => vec!["adm=ok preds=ok".into()],
@@ -271,11 +294,110 @@ fn generate_scenario(which: &str, sess: &mut Session, out: &mut Out) {
     }
 }
 
+/// transactions on contested registers, dumped after EVERY local op, then committed or rolled back:
+/// increments on [counter, non-counter] conflicts in both winner orders, deletes and overwrites of
+/// conflicted values, list / text inserts and deletes, first transactions of a new low-sorting actor
+fn generate_tx(r: &mut Rng, sess: &mut Session, out: &mut Out) {
+    out.count("tx_cases");
+    let enc = ["cp", "utf8", "utf16"][r.below(3) as usize];
+    let mut actors: Vec<Vec<u8>> = (0..3).map(|i| vec![0x40 + 0x30 * i as u8 + r.below(8) as u8]).collect();
+    if r.chance(1, 2) { actors.reverse(); }
+    if r.chance(1, 3) { actors.swap(0, 2); }
+    exec_line(sess, &format!("crdt.new r0 {} {}", enc, hex::encode(&actors[0])), out);
+    let res = exec_line(sess, "crdt.putobj r0 _ m6c L", out);
+    let list = res[0].strip_prefix("ok ").unwrap_or("_").to_string();
+    let res = exec_line(sess, "crdt.putobj r0 _ m74 T", out);
+    let text = res[0].strip_prefix("ok ").unwrap_or("_").to_string();
+    exec_line(sess, &format!("crdt.ins r0 {} 0 c5", list), out);
+    exec_line(sess, &format!("crdt.ins r0 {} 1 s78", list), out);
+    exec_line(sess, &format!("crdt.splice r0 {} 0 0 {}", text, hex::encode("abc")), out);
+    exec_line(sess, "crdt.put r0 _ m61 c1", out);
+    let mut all: Vec<String> = vec![];
+    commit(sess, out, "r0", &mut all);
+    exec_line(sess, &format!("crdt.fork r0 r1 {}", hex::encode(&actors[1])), out);
+    exec_line(sess, &format!("crdt.fork r0 r2 {}", hex::encode(&actors[2])), out);
+    let mut names = vec!["r0".to_string(), "r1".to_string(), "r2".to_string()];
+    let vals = ["c3", "c7", "i4", "s79", "n", "c0"];
+    let txts = ["a", "bc", "é", "🙂"];
+    let mut low = 0u8;
+    for _round in 0..r.range(2, 5) {
+        // concurrent single edits make the conflicts: counters against plain values on one map key and
+        // one list element, whichever actor sorts higher
+        for who in names.clone().iter() {
+            if r.chance(1, 3) { continue; }
+            let len = sess.crdt.replicas.get(who).unwrap().length(parse_exid(&list)) as u64;
+            let line = match r.below(4) {
+                0 | 1 => format!("crdt.put {} _ m61 {}", who, vals[r.below(6) as usize]),
+                2 if len > 0 => format!("crdt.put {} {} i{} {}", who, list, r.below(len.min(2)), vals[r.below(6) as usize]),
+                _ => format!("crdt.ins {} {} {} {}", who, list, r.below(len + 1), vals[r.below(6) as usize]),
+            };
+            exec_line(sess, &line, out);
+            commit(sess, out, who, &mut all);
+        }
+        for who in names.clone().iter() {
+            if r.chance(1, 4) { continue; }
+            exec_line(sess, &format!("crdt.apply {} {}", who, all.join(",")), out);
+        }
+        // sometimes a brand new actor that sorts before every other one makes its first transaction
+        if r.chance(1, 3) && low < 3 {
+            low += 1;
+            let n = format!("n{}", low);
+            let src = names[r.below(names.len() as u64) as usize].clone();
+            exec_line(sess, &format!("crdt.fork {} {} {}", src, n, hex::encode([0x10 - low])), out);
+            names.push(n);
+            out.count("tx_new_low_actor");
+        }
+        // one transaction of several local ops, dumped after every op
+        let who = names[r.below(names.len() as u64) as usize].clone();
+        exec_line(sess, &format!("crdt.st.snap {}", who), out);
+        exec_line(sess, &format!("crdt.st.dump {}", who), out);
+        let nops = r.range(1, 5);
+        for _ in 0..nops {
+            let d = sess.crdt.replicas.get(&who).unwrap();
+            let len = d.length(parse_exid(&list)) as u64;
+            let tlen = d.length(parse_exid(&text)) as u64;
+            let line = match r.below(12) {
+                0 | 1 => format!("crdt.inc {} _ m61 {}", who, r.range(1, 3)),
+                2 if len > 0 => format!("crdt.inc {} {} i{} {}", who, list, r.below(len.min(2)), r.range(1, 3)),
+                3 => format!("crdt.del {} _ m61", who),
+                4 if len > 0 => format!("crdt.del {} {} i{}", who, list, r.below(len)),
+                5 => format!("crdt.put {} _ m61 {}", who, vals[r.below(6) as usize]),
+                6 if len > 0 => format!("crdt.put {} {} i{} {}", who, list, r.below(len.min(2)), vals[r.below(6) as usize]),
+                7 | 8 => format!("crdt.ins {} {} {} {}", who, list, r.below(len + 1), vals[r.below(6) as usize]),
+                9 => { let pos = r.below(tlen + 1); let del = if tlen > pos && r.chance(1, 2) { r.range(1, (tlen - pos).min(2)) } else { 0 };
+                       format!("crdt.splice {} {} {} {} {}", who, text, pos, del, hex::encode(txts[r.below(4) as usize])) }
+                10 => format!("crdt.putobj {} _ m6f {}", who, ["M", "L", "T"][r.below(3) as usize]),
+                _ => format!("crdt.put {} _ m{} {}", who, hex::encode(["b", "k", "z"][r.below(3) as usize]), vals[r.below(6) as usize]),
+            };
+            let res = exec_line(sess, &line, out);
+            out.count(&format!("tx_{}", line.split(' ').next().unwrap()));
+            if res.get(0).map(|s| s.starts_with("err")).unwrap_or(false) { out.count("tx_edit_errors"); }
+            exec_line(sess, &format!("crdt.st.dump {}", who), out);
+            out.count("dumps_in_tx");
+            if r.chance(1, 4) { exec_line(sess, &format!("crdt.st.state {}", who), out); }
+        }
+        if r.chance(1, 2) {
+            exec_line(sess, &format!("crdt.rollback {}", who), out);
+            exec_line(sess, &format!("crdt.st.rbcheck {}", who), out);
+            exec_line(sess, &format!("crdt.st.dump {}", who), out);
+            exec_line(sess, &format!("crdt.st.state {}", who), out);
+            out.count("tx_rollbacks");
+        } else {
+            commit(sess, out, &who, &mut all);
+            exec_line(sess, &format!("crdt.st.dump {}", who), out);
+            out.count("tx_commits");
+        }
+    }
+    for n in names.iter() { exec_line(sess, &format!("crdt.apply {} {}", n, all.join(",")), out); }
+    dump_all(r, sess, out, &names);
+}
+
 pub fn generate(r: &mut Rng, opts: &BTreeMap<String, String>, sess: &mut Session, out: &mut Out) {
     if let Some(which) = opts.get("scenario") { return generate_scenario(which, sess, out); }
-    match r.below(4) {
+    match r.below(6) {
         0 => return generate_focus(r, sess, out),
         1 => return generate_seq(r, sess, out),
+        2 | 3 => return generate_tx(r, sess, out),
         _ => {}
     }
     out.count("general_cases");
